@@ -197,6 +197,35 @@ std::vector<Workload> build()
                              }});
             }
     }
+    // 3b. every typed payload of the alphabet cut at EVERY length, each cut as a self-consistent message (declared length = bytes
+    //     present; exact-size buffer): whatever a validator accepts of them, every accessor of the returned packet is determined by
+    //     those bytes alone
+    {
+        auto A = messageAlphabet();
+        for (size_t i = 0; i < A.size(); ++i)
+        {
+            ref::Msg m = A[i].m;
+            if (m.body.size() < 4 || m.body.size() > 400 || m.h.ptype == 0xFE || m.h.ptype == 0)
+                continue;
+            w.push_back({fmt("decode %s cut at every payload length", A[i].name.c_str()), [=](Out& o) {
+                             for (uint8_t mt : {(uint8_t) 1, (uint8_t) 3})
+                                 for (size_t L = 0; L <= m.body.size(); ++L)
+                                 {
+                                     ref::Msg c = m;
+                                     c.body.resize(L);
+                                     c.h.plen = (uint16_t) L;
+                                     ref::FrameHdr fh;
+                                     fh.device = 0x0A0B; fh.stream = 7; fh.msgType = mt; fh.version = 1; fh.seq = 78;
+                                     Bytes f = ref::buildFrame(fh, {c});
+                                     std::unique_ptr<uint8_t[]> exact(new uint8_t[f.size()]);
+                                     memcpy(exact.get(), f.data(), f.size());
+                                     Decoder d;
+                                     for (auto& p : d.decode(exact.get(), f.size()))
+                                         outPacket(o, *p);
+                                 }
+                         }});
+        }
+    }
     // 4. reassembly of hand-built segments (sizes 0,1,5, trailing bytes, wrap)
     for (int k = 0; k < 12; ++k)
         w.push_back({fmt("reassembly variant %d", k), [=](Out& o) {
